@@ -110,7 +110,7 @@ def eval_point(pt, R):
                     all(np.min(np.abs(np.exp(1j * w) - np.exp(1j * got))) < tolr for w in want)
             R.check(ok, 'recovery', feats, pt, roots, np.exp(1j * want), 'roots of [1,a] are not the p exponentials', outs=(a, name))
         return
-    x = np.asarray(pt['x'])
+    x = A.layout(pt, pt['x'])
     p = int(pt['p'])
     N = len(x)
     cplx = np.iscomplexobj(x)
@@ -138,7 +138,7 @@ def eval_point(pt, R):
         fn = spectrum.arcovar if meth == 'covariance' else spectrum.modcovar
         R.calls()
         try:
-            xin = x.copy()
+            xin = A.clone(x)       # keeps a strided view strided
             a, e = fn(xin, p)
             a = np.asarray(a)
             R.check(np.array_equal(xin, x), 'input_unchanged', feats, ptm, xin, x, 'estimator modified its input array')
